@@ -4,6 +4,7 @@ import Rpki.Model.SigMsg
 import Rpki.Model.Sha
 import Rpki.Model.SigMsgDer
 import Driver.CertShow
+import Rpki.Gen.BerModel
 namespace Driver.C10
 open Driver Rpki.SigObj Rpki.SigMsg
 
@@ -68,7 +69,11 @@ def handle (toks : List String) (impl : String) : Verdict :=
     match hexB h with
     | none => badOp "hex"
     | some b => { model := some (Driver.CertShow.smsgLine b), oracle := if impl = "panic" then some "SignedMessage::decode panicked" else none }
-  | "msg" :: when :: facts :: _ =>
+  | op :: when :: facts :: _ =>
+    -- `msg`: `SignedMessage::decode(.., strict = true)`; `msgr`: the relaxed mode, which the protocol wrappers
+    -- `ProvisioningCms` / `PublicationCms` use (the mode-parametrized model at ber = true)
+    if op ≠ "msg" ∧ op ≠ "msgr" then badOp "unknown op" else
+    let ber := op = "msgr"
     match Driver.C01.parseInt when with
     | none => badOp "when"
     | some when =>
@@ -92,10 +97,10 @@ def handle (toks : List String) (impl : String) : Verdict :=
         let model := match toks.getLast?.bind hexB with
           | none => "bad-op"
           | some mb =>
-            match Rpki.SigMsgDer.decodeSigMsg mb with
+            match Rpki.SigMsgDer.decodeSigMsgM ber mb with
             | none => "err"
             | some d =>
-              let m := Rpki.SigMsgDer.toMsg d p.m.sigKeyOk p.m.sigInput p.m.ee.sigOk p.m.crl.sigOk
+              let m := Rpki.SigMsgDer.toMsgM ber d p.m.sigKeyOk p.m.sigInput p.m.ee.sigOk p.m.crl.sigOk
               if validateAt digest m p.peer when then "ok" else "err"
         let spec := p.dec && specOk p when
         { model := some model,
